@@ -129,6 +129,13 @@ def check(pm: ProgramModel, ctx: Ctx) -> None:
         for nm, tree in stress_trees(mb):
             validate(ctx, pm, writer, f"{P}-CTC", f"shape:{nm}", ctc_model(mb, [("c", tree)]), f"constraint shape {nm}")
         validate(ctx, pm, writer, f"{P}-CTC", "single-literal", ctc_model(mb, [("c", n("B"))]), "single-literal constraint")
+        rt = mb.feature("Root")
+        for nm_ in ("Tls", "Http", "TLS", "HTTP"):
+            mb.relation(rt, [mb.feature(nm_)], 0, 1)
+        validate(ctx, pm, writer, f"{P}-CTC", "look-alike-constraints",
+                 mb.model(rt, [mb.constraint("u", n(o("IMPLIES"), n("Tls"), n("Http"))),
+                               mb.constraint("l", n(o("IMPLIES"), n("TLS"), n("HTTP")))]),
+                 "two constraints whose texts differ in letter case only (over four distinct features)")
         for cls_ in ("space", "punct", "unicode", "opword", "keyword"):
             validate(ctx, pm, writer, f"{P}-ONEENC", f"name:{cls_}", name_model(mb, NAME_CLASSES[cls_]),
                      f"feature named {NAME_CLASSES[cls_]!r}", fragment=(writer == "SPLOTWriter"))
